@@ -694,7 +694,7 @@ def src_bind(run):
                     why = "the file handle given to get_str* (%s) is not the span's file_handle" % hargs
             run.check(ok, R, key, f.loc(t["span"]), "%s counts lines/columns in the text of the span's own file" % f.id,
                       "%s builds its CharCounter from a text that is not provably the span's own file (%s): a message located in another file would be printed with that file's name but another file's line, column and excerpt" % (f.id, why))
-    run.floor(R, "CharCounter constructions in the report printer", n, 2)
+    run.floor(R, "CharCounter constructions in the report printer", n, 1)
 
 
 def addrspan_positions(run, R="SRC"):
